@@ -39,13 +39,24 @@ pub enum Fault {
     /// the node then comes back on the same tip (0), on an equal-work sibling of it (1) or one block short of it (2) -
     /// a tip that is not better than the tower's. The run ends after the recovery has been judged.
     IdleOutage { op: usize, back_on: u8 },
+    /// right after operation `op` (a poll; tower in sync) the node reorganises `depth` blocks away (depth + 1 new ones)
+    /// and the first block of the new branch cannot be downloaded: the poll disconnects and stops at the fork point,
+    /// the SPV client keeps that partial progress and the tower goes on serving requests there. A user then registers
+    /// and submits a fresh appointment: its receipt must carry the fork point's height (C08: "the start block is the
+    /// tower's height at acceptance ... around reorgs (height going backwards)"). The run ends there.
+    ReorgStall { op: usize, depth: usize },
 }
+
+/// start_block of the last receipt obtained by `Cmd::AddFresh` (-1: refused, -2: receipt does not verify)
+static FRESH_START_BLOCK: std::sync::atomic::AtomicI64 = std::sync::atomic::AtomicI64::new(-1);
 
 enum Cmd {
     Op(Op),
     Poll,
     /// the four public endpoints, answered with their status codes
     Probe,
+    /// register `user` and submit an appointment nobody has sent before (random locator, 100-byte blob)
+    AddFresh { user: usize, nonce: u64 },
     Exit,
 }
 
@@ -70,6 +81,22 @@ fn api_exec(world: &World, api: &crate::tower::Api, cmd: &Cmd) -> Vec<Option<Cod
             Op::GetSub { sig, .. } => vec![code_of(&tower::get_subscription_info(api, sig))],
             _ => vec![],
         },
+        Cmd::AddFresh { user, nonce } => {
+            FRESH_START_BLOCK.store(-1, Ordering::SeqCst);
+            let reg = tower::register(api, world.users[*user].1.serialize().to_vec());
+            let mut rng = crate::rng::Rng::new(0xADDF ^ *nonce);
+            let locator: Vec<u8> = (0..16).map(|_| rng.below(256) as u8).collect();
+            let blob: Vec<u8> = (0..100).map(|_| rng.below(256) as u8).collect();
+            let mut msg = locator.clone();
+            msg.extend(&blob);
+            msg.extend(42u32.to_be_bytes());
+            let sig = world.sign(&mut rng, crate::world::Signer::User(*user), &msg, crate::world::SigKind::Good);
+            let r = tower::add_appointment(api, locator, blob, 42, sig.clone());
+            if let Ok(rc) = &r {
+                FRESH_START_BLOCK.store(rc.start_block as i64, Ordering::SeqCst);
+            }
+            vec![code_of(&reg), code_of(&r)]
+        }
         Cmd::Probe => vec![
             code_of(&tower::register(api, vec![1, 2, 3]).map(|_| ())).or(Some(Code::Ok)),
             code_of(&tower::add_appointment(api, vec![0u8; 16], vec![1, 2, 3], 1, "x".into())).or(Some(Code::Ok)),
@@ -546,6 +573,54 @@ pub fn run_faulted(world: &World, cfg: &tower::TowerCfg, ops: &[Op], base_snaps:
                     i = j - 1; // chain ops executed during the outage are done
                 }
             }
+            if let Fault::ReorgStall { op: fop, depth } = fault {
+                if *fop == i && matches!(ops[i], Op::Poll) {
+                    out.hit = true;
+                    out.path = "reorg stalled at the fork point".into();
+                    let blocks: Vec<Vec<crate::world::TxRef>> = (0..depth + 1).map(|k| vec![crate::world::TxRef::Filler(0xBEEF_0000 + (i as u64) * 64 + k as u64)]).collect();
+                    let old_tip_height = lock(&world.chain).active.len() - 1;
+                    if old_tip_height <= *depth + 1 {
+                        inconclusive!("chain too short for the reorg".to_string());
+                    }
+                    world.reorg(*depth, &blocks, salt);
+                    let fork_height = old_tip_height - depth;
+                    {
+                        let mut cs = lock(&world.chain);
+                        let first_new = cs.active[fork_height + 1];
+                        cs.undownloadable.insert(first_new, SrcFault::Transient);
+                    }
+                    let _ = chain_tx.send(Cmd::Poll);
+                    match wait_for(&sched, "chain", &chain_res) {
+                        Wait::Done(_) => {}
+                        Wait::Blocked(d) => fail!(format!("C12:poll-does-not-return:{}", block_class(&d)), format!("a poll whose first new block cannot be downloaded does not return: {d}")),
+                        Wait::Watchdog => inconclusive!("watchdog in the stalled poll".to_string()),
+                        Wait::Spinning(n) => spinning!(n, "in the stalled poll".to_string()),
+                    }
+                    let user = i % world.users.len();
+                    let _ = api0_tx.send(Cmd::AddFresh { user, nonce: (i as u64) << 8 | *depth as u64 });
+                    match wait_for(&sched, "api0", &api0_res) {
+                        Wait::Done(codes) => {
+                            let sb = FRESH_START_BLOCK.load(Ordering::SeqCst);
+                            if codes.iter().any(|c| *c == Some(Code::Unavailable)) {
+                                // the tower took the failed download for a lost connection: nothing to judge here
+                                out.hit = false;
+                            } else if sb >= 0 && sb != fork_height as i64 {
+                                lock(&world.chain).undownloadable.clear();
+                                fail!("C08:start-block-after-disconnections".to_string(), format!("a reorg of {depth} blocks stopped at the fork point (height {fork_height}; the first block of the new branch could not be downloaded); an appointment accepted there got a receipt with start_block {sb}: not the tower's height at acceptance (the tip before the reorg was {old_tip_height})"));
+                            } else if sb < 0 {
+                                out.hit = false;
+                            }
+                        }
+                        Wait::Blocked(d) => fail!(format!("C12:blocked-without-outage:{}", block_class(&d)), format!("a request after a stalled reorg poll does not return: {d}")),
+                        Wait::Watchdog => inconclusive!("watchdog in the request after the stalled poll".to_string()),
+                        Wait::Spinning(n) => spinning!(n, "in the request after the stalled poll".to_string()),
+                    }
+                    lock(&world.chain).undownloadable.clear();
+                    // the chain is not the history's any more: nothing further to compare
+                    finish();
+                    return;
+                }
+            }
             if let Fault::IdleOutage { op: fop, back_on } = fault {
                 if *fop == i && matches!(ops[i], Op::Poll) {
                     out.hit = true;
@@ -736,11 +811,18 @@ pub fn run(seed: u64, shard: u64, nshards: u64, cases: u64, max_faults_per_case:
                 // the same / an equal-work sibling / shorter
                 let polls: Vec<usize> = case.ops.iter().enumerate().filter(|(_, o)| matches!(o, Op::Poll)).map(|(k, _)| k).collect();
                 if !polls.is_empty() {
+                    // reorgs that stop at the fork point, shallower and deeper than the Watcher's six-block cache
+                    for (n, depth) in [(polls.len() / 2, 8usize), (polls.len() - 1, 7), (polls.len() / 3, 2), (2 * polls.len() / 3, 12), (0, 1)] {
+                        faults.push(Fault::ReorgStall { op: polls[n.min(polls.len() - 1)], depth });
+                    }
                     for (n, back_on) in [(polls.len() / 2, 1u8), (polls.len() - 1, 2), (0, 0), (polls.len() / 3, 2), (2 * polls.len() / 3, 1)] {
                         faults.push(Fault::IdleOutage { op: polls[n.min(polls.len() - 1)], back_on });
                     }
                 }
             }
+        }
+        if prop == "C08" {
+            faults.retain(|f| matches!(f, Fault::ReorgStall { .. }));
         }
         for f in faults {
             let world = world0.fork();
@@ -775,15 +857,25 @@ pub fn run(seed: u64, shard: u64, nshards: u64, cases: u64, max_faults_per_case:
                 break;
             }
             if let Some((sig, detail)) = o.violation {
-                if prop != "C12" && !wedge_signature(&sig) {
+                let sig = if sig.starts_with("C08:") {
+                    // the receipt oracle of the stalled-reorg faults is C08's business only
+                    if prop != "C08" {
+                        continue;
+                    }
+                    sig
+                } else if prop == "C12" {
+                    sig
+                } else if wedge_signature(&sig) {
+                    sig.replacen("C12:", &format!("{prop}:outage:"), 1)
+                } else {
                     // handling the outage wrongly without wedging the tower is C12's business
                     continue;
-                }
-                let sig = if prop != "C12" { sig.replacen("C12:", &format!("{prop}:outage:"), 1) } else { sig };
+                };
                 let replay = json!({"engine":"e1o","seed":seed,"case":id,"fault": match &f {
                     Fault::Outage{rpc,polls_down,with_following_chain_ops} => json!({"outage":[rpc,polls_down,with_following_chain_ops]}),
                     Fault::SrcFailure{op,call,len} => json!({"src_failure":[op,call,len]}),
-                    Fault::IdleOutage{op,back_on} => json!({"idle_outage":[op,back_on]}) },
+                    Fault::IdleOutage{op,back_on} => json!({"idle_outage":[op,back_on]}),
+                    Fault::ReorgStall{op,depth} => json!({"reorg_stall":[op,depth]}) },
                     "ops": case.ops.iter().map(|o| o.to_json()).collect::<Vec<_>>()});
                 r.violation(sig, format!("history {id}, fault {f:?}: {detail}"), replay);
             }
